@@ -206,3 +206,39 @@ def forwards(rep, res, entry, callee_names, need, rule="R-FORWARD"):
                       msg=(f"`{p}` of {fn.name} is " + ("not passed" if v is None else f"bound to a value with origins {sorted(v.flat().data)}")
                            + f", not to {origin}") if not ok else "forwarded")
     return calls
+
+
+def must_constraint(rep, res, entry, origin, label, probs=None, rule="R-FLOW"):
+    """Under a configuration in which the bound is finite, a constraint carrying `origin` is added on EVERY path:
+    its creation is guarded only by tests the configuration decides (or by complementary guards)."""
+    probs = probs if probs is not None else final_problems(res)
+    evs = [ev for ev in res.events("cvx_constraint") if origin in R.closure_deps(res, ev.d["val"])]
+    if not evs:
+        return          # absence is reported by flow_constraints
+    def undecided(ev):
+        return [(g[0], g[1]) for g in ev.guards if len(g) > 3 and not g[3]]
+    free = [ev for ev in evs if not undecided(ev)]
+    ok = bool(free)
+    if not ok:
+        und = [undecided(ev) for ev in evs]
+        singles = [u[0] for u in und if len(u) == 1]
+        ok = any((t, not p) in singles for (t, p) in singles)
+    ev = evs[0]
+    rep.check(rule, f"{label} enforced on every path", ok, where=ev.loc, construct=ev.text(), entry=entry, config=res.config,
+              msg=(f"the only constraint carrying `{origin}` is created under the undecided guard(s) "
+                   f"{[g[0] for g in undecided(ev)]}: for inputs where the guard fails the bound is not enforced "
+                   f"(a sign attribute enforces only x ≥ 0)") if not ok else "added unconditionally for this configuration")
+
+
+def hygiene(rep, res, entry, shape=True, purity=True, dtype=True, value=True, refresh=True):
+    """Rules that apply to every fitting entry point."""
+    if shape:
+        R.rule_type_errors(rep, res, "SHAPE", "R-SHAPE", entry)
+    if value:
+        R.rule_value(rep, res, entry)
+    if purity:
+        R.rule_purity(rep, res, entry)
+    if dtype:
+        R.rule_dtype(rep, res, entry)
+    if refresh:
+        R.rule_refresh(rep, res, entry)
